@@ -52,6 +52,17 @@ def run (umask : Nat) (fs : FS) : List Act → FS
   | [] => fs
   | a :: as => run umask (applyAct umask fs a) as
 
+/-- paths an action can change -/
+def targets : Act → List Path
+  | .createExcl p _ => [p]
+  | .write p _ => [p]
+  | .unlink p => [p]
+  | .rename s d => [s, d]
+  | .writeFail _ _ => []
+  | .close _ => []
+  | .closeFail _ => []
+  | .renameFail _ _ => []
+
 /-! ## bufio.Writer (size `N`) in front of the file -/
 
 /-- one `bufio.Writer.Write(p)`: the chunks handed to the underlying file, and the new buffer content.
